@@ -491,9 +491,10 @@ std::string harness_run()
   sim::fault_setup("SPURIOUS_WAKEUP", {10, 50, 200});
   int mk = int(sim::cfg_weighted("mesh", {5, 3, 2}));
   int level;
-  if(mk == 0) level = int(sim::cfg_weighted("level", {1, 2, 4, 4, 1}));      // quads: 1,4,16,64,256 cells
-  else if(mk == 1) level = int(sim::cfg_weighted("level", {1, 3, 3, 2, 0})); // triangles: 2,8,32,128
-  else level = int(sim::cfg_weighted("level", {1, 3, 2, 0, 0}));             // hexas: 1,8,64
+  const bool big = sim::thorough();
+  if(mk == 0) level = int(sim::cfg_weighted("level", {1, 2, 4, 4, 1, big ? 1 : 0}));      // quads: 1,4,16,64,256(,1024) cells
+  else if(mk == 1) level = int(sim::cfg_weighted("level", {1, 3, 3, 2, big ? 1 : 0})); // triangles: 2,8,32,128(,512)
+  else level = int(sim::cfg_weighted("level", {1, 3, 2, big ? 1 : 0, 0}));             // hexas: 1,8,64(,512)
   int perm = int(sim::cfg_weighted("perm", {5, 1, 2, 1, 1}));
   g_vd = Verdict();
   sim::spawn("master", [=]() {
